@@ -307,8 +307,8 @@ class Ctx:
         input/history; if it is listed in known_findings.json (status known) it is a KNOWN-FINDING."""
         for k in self.known:
             if k["property"] == self.pid and re.fullmatch(k["key"], key):
-                if key not in [h[0] for h in self.known_hits]:
-                    self.known_hits.append((key, k["what"]))
+                if k["key"] not in [h[2] for h in self.known_hits]:
+                    self.known_hits.append((key, k["what"], k["key"]))
                 return False
         if len(self.violations) >= 20:
             self.violations.append((key, None, text))
@@ -336,7 +336,7 @@ class Ctx:
             "traces_validated_against_impl": self.traces,
             "evaluations": max(1, self.evaluations), "distinct_nontrivial": distinct_nontrivial,
             "rule": rule, "samples": self.samples or ["(none)"], "exhaustive": exhaustive,
-            "tlc_runs": self.tlc_runs, "known_findings_hit": [k for k, _ in self.known_hits],
+            "tlc_runs": self.tlc_runs, "known_findings_hit": [h[0] for h in self.known_hits],
         }
         cov.update(self.notes)
         if extra:
@@ -347,8 +347,8 @@ class Ctx:
         os.makedirs(os.path.join(self.outroot, "evidence"), exist_ok=True)
         with open(os.path.join(self.outroot, "evidence", self.pid + ".json"), "w") as f:
             json.dump(ev, f, indent=1, default=str)
-        for key, what in self.known_hits:
-            print("KNOWN-FINDING: property=%s %s [%s]" % (self.pid, what, key))
+        for key, what, _ in self.known_hits:
+            print("KNOWN-FINDING: property=%s %s [first key: %s]" % (self.pid, what, key))
         shown = 0
         for key, path, text in self.violations:
             if path and shown < 6:
